@@ -35,8 +35,8 @@ pub fn budget(prop: &str, tier: Tier) -> Budget {
         "C04" => (60_000, 720),
         "C05" => (120_000, 600),
         "C09" => (150_000, 480),
-        "C06" => (150_000, 480),
-        "C13" => (150_000, 480),
+        "C06" => (400_000, 480),
+        "C13" => (300_000, 480),
         "C14" => (20_000, 480),
         "C16" => (6_000, 600),
         "C10" => (100_000, 600),
